@@ -512,6 +512,13 @@ class Impl:
         snap["gattr"] = ({name: getattr(self.grid, name, None) is l for name, l in self.attached().items()}
                          if self.kind == "new" else {})
         if self.kind == "new":
+            # the second registry of add / remove_property_layer: which layer names the grid's own cell class defines
+            # (setattr / delattr on the dynamic GridCell class); judged against the dict by clause (1c) — that each such
+            # attribute reads the very layer is clause (1).  (`hasattr(cell_klass, name)` is no way to ask: a
+            # PropertyDescriptor raises AttributeError when read on the class.)
+            klass = self.grid.cell_klass
+            names = {l.name for l, _ in self.layers} | set(GOOD_NAMES)
+            snap["descr"] = tuple(sorted(n for n in names if type(vars(klass).get(n)).__name__ == "PropertyDescriptor"))
             try:
                 snap["actual"] = tuple(int(self.grid[c].is_empty) for c in self.cells)
             except TypeError as ex:  # a layer shadows Cell.agents / Cell.is_empty
@@ -1051,6 +1058,11 @@ class Impl:
         for name, same in new["gattr"].items():
             if not same and name not in self.gset_names:
                 self.fail("grid-attr", f"grid.{name} is not the attached layer after {' '.join(w)}")
+        # (1c) the two registries of a cell space are one map: the cell class has an attribute for a layer name exactly
+        # while the grid's dict has an entry for it
+        if self.kind == "new":
+            if new["descr"] != tuple(sorted(new["attached"])):
+                self.fail("registries", f"layer attributes of the cell class {new['descr']} != names of the layer dict {sorted(new['attached'])} after {' '.join(w)}")
         if k == "gset" and self.kind == "new":
             if ok and w[1] in old["attached"]:
                 self.fail("grid-attr", f"{' '.join(w)} replaced the attribute of an attached layer")
